@@ -301,7 +301,7 @@ def run_task(task):
             _, part, nparts = task
             n = 0
             for k in range(len(KINDS)):
-                for mode in ('stdout', 'output'):
+                for mode in ('stdout', 'output', 'output-is-input', 'output-is-input-relative', 'output-preexisting'):
                     n += 1
                     if n % nparts == part:
                         single_file_case(res, k, mode, scratch)
@@ -357,6 +357,13 @@ def single_file_case(res, k, mode, scratch):
         with open(p, 'wb') as f:
             f.write(content)
         outp = os.path.join(root, 'result.out')
+        if mode == 'output-is-input':
+            outp = p
+        elif mode == 'output-is-input-relative':
+            outp = os.path.join(root, '.', os.path.basename(p))
+        elif mode == 'output-preexisting':
+            with open(outp, 'wb') as f:
+                f.write(b'# previous output\n')
         args = [p] if mode == 'stdout' else [p, '--output', outp]
         env = Env(False)
         clidrv.M.open = env.open
@@ -371,6 +378,17 @@ def single_file_case(res, k, mode, scratch):
         with open(p, 'rb') as f:
             now = f.read()
         ctx = 'file %s mode %s: %r' % (name, mode, o)
+        if mode.startswith('output-is-input'):
+            a = api(content, [])
+            fails = 'unreadable' in name or 'readonly' in name or a is None
+            want = content if fails or len(a) > len(content) else a
+            if now != want:
+                res.violation('output-onto-input-corrupts:' + name, {'single': k, 'mode': mode}, ctx + '\nfile now %r, expected %r' % (now[:100], want[:100]))
+            elif (o.exit != 0) != bool(fails):
+                res.violation('output-onto-input-exit-status:' + name, {'single': k, 'mode': mode}, ctx)
+            else:
+                res.count('traces_validated_against_impl')
+            return
         if now != content:
             res.violation('source-modified-without-in-place:' + name, {'single': k, 'mode': mode}, ctx)
         others = sorted(set(os.listdir(root)) - {name, 'result.out'})
@@ -378,11 +396,15 @@ def single_file_case(res, k, mode, scratch):
             res.violation('files-created:' + name, {'single': k, 'mode': mode}, ctx + ' %s' % others)
         a = api(content, [])
         fails = 'unreadable' in name or a is None
-        if fails and (o.exit == 0 or os.path.exists(outp) or o.out_bytes):
+        if mode == 'output-preexisting' and fails:
+            with open(outp, 'rb') as f:
+                if f.read() != b'# previous output\n' or o.exit == 0:
+                    res.violation('failure-touched-existing-output:' + name, {'single': k, 'mode': mode}, ctx)
+        elif fails and (o.exit == 0 or os.path.exists(outp) or o.out_bytes):
             res.violation('failure-wrote-output:' + name, {'single': k, 'mode': mode}, ctx)
         if not fails:
             want = a if len(a) <= len(content) else content
-            got = open(outp, 'rb').read() if mode == 'output' and os.path.exists(outp) else o.out_bytes
+            got = open(outp, 'rb').read() if mode.startswith('output') and os.path.exists(outp) else o.out_bytes
             if o.exit != 0 or got != want:
                 res.violation('wrong-output:' + name, {'single': k, 'mode': mode}, ctx + '\nwant %r got %r' % (want[:100], got[:100]))
             else:
